@@ -7,8 +7,8 @@ from .lib import coq_mismatches, clist
 LEVEL = "proof"
 META = {
     "category": "proof",
-    "text": "Coq theorems over an executable model of syntax/parse.go (recursive descent with the real precedence table, explicit fuel) and of the parts of syntax/scan.go the property names (number delimiting/decoding in all radices and sizes, INDENT/OUTDENT/NEWLINE synthesis). Proved for all inputs: every well-parenthesised expression tree rendered to tokens parses back to exactly that tree with every position field, at every precedence level (all operator pairs, all nestings, comparisons non-associative, unary, conditional, lambda, calls/args, slices, displays, comprehensions); the same for every concrete statement tree and file (simple-statement lines with ';', inline and indented suites, if/elif/else, for, while, def, load); conversely every token list the expression parser accepts is the rendering of the well-parenthesised tree it returns (so near-miss texts are rejected or are themselves texts of the grammar with that meaning); each node's Span start is its first token; integer literals decode to their positional value for every radix and length; the indentation stack re-nests every consistently indented block structure with blank/comment/continuation lines anywhere, never underflows, and rejects inconsistent dedents. The hand-written model is tied to /repo on every run: a Go generator of syntax trees (depth 6, all expression and statement forms, random layout) is rendered to text, the real FileOptions.Parse/ParseExpr tree and Span starts are compared with the generated tree and the renderer's positions, the real token stream (verif hook) is parsed by the Coq model (vm_compute) and must give the real tree, Print.v must render the generated tree to the real token kinds; literal sweeps, layout streams, one-token near-misses and texts with one required parenthesis dropped are compared the same way.",
-    "note": "Trusted: Coq kernel + vm_compute; the Go harness (generator, renderer, its independent literal/unquote oracles); strconv.ParseFloat (cross-checked against CPython float()); unicode tables. Soundness (accepted => rendering of a well-formed tree) is proved for expressions; for statements it is checked by correspondence only. String-escape decoding is checked against an independent Go oracle only; error positions are checked to lie inside the text but are not modelled.",
+    "text": "Coq theorems over an executable model of syntax/parse.go (recursive descent with the real precedence table, explicit fuel) and of the parts of syntax/scan.go the property names (number delimiting/decoding in all radices and sizes, INDENT/OUTDENT/NEWLINE synthesis). Proved for all inputs: every well-parenthesised expression tree rendered to tokens parses back to exactly that tree with every position field, at every precedence level (all operator pairs, all nestings, comparisons non-associative, unary, conditional, lambda, calls/args, slices, displays, comprehensions); the same for every concrete statement tree and file (simple-statement lines with ';', inline and indented suites, if/elif/else, for, while, def, load); conversely every token list the expression parser accepts is the rendering of the well-parenthesised tree it returns, and every token list the statement / file parser accepts (all statement forms, inline and indented suites; premise: no INDENT directly followed by OUTDENT, which the scanner's layout algorithm is proved never to emit and without which the statement is refuted by a witness; with no premise the same holds with empty indented blocks allowed, so that is the only deviation) is the rendering of a well-formed concrete statement tree whose Go-shaped projection is the tree returned, up to the optional final NEWLINE at EOF (so near-miss texts are rejected or are themselves texts of the grammar with that meaning); rendering is injective on well-formed expressions, statements, suites and files; each node's Span start is its first token; integer literals decode to their positional value for every radix and length; the indentation stack re-nests every consistently indented block structure with blank/comment/continuation lines anywhere, never underflows, and rejects inconsistent dedents. The hand-written model is tied to /repo on every run: a Go generator of syntax trees (depth 6, all expression and statement forms, random layout) is rendered to text, the real FileOptions.Parse/ParseExpr tree and Span starts are compared with the generated tree and the renderer's positions, the real token stream (verif hook) is parsed by the Coq model (vm_compute) and must give the real tree, Print.v must render the generated tree to the real token kinds; literal sweeps, layout streams, one-token near-misses and texts with one required parenthesis dropped are compared the same way.",
+    "note": "Trusted: Coq kernel + vm_compute; the Go harness (generator, renderer, its independent literal/unquote oracles); strconv.ParseFloat (cross-checked against CPython float()); unicode tables. Soundness (accepted => rendering of a well-formed tree) is proved for expressions, statements and files at token level (positions dropped, NOT_IN expanded); the premise on INDENT/OUTDENT adjacency is proved of the layout model's event stream, whose EvLine payloads stand for the tokens of a line (that reading is part of the model, tied by the layout-stream correspondence cases). String-escape decoding is checked against an independent Go oracle only; error positions are checked to lie inside the text but are not modelled.",
     "technique": "Coq proof over executable model + differential correspondence (vm_compute) + independent tree/renderer oracle",
 }
 HEADER = ("From Coq Require Import ZArith List String Bool.\n"
